@@ -228,6 +228,11 @@ def _shapes(world, r):
                 I, st, c, [], {"broadcast": True}), dec)
             yield ("address", lambda I, st: construct(
                 I, st, c, [], {"address": IvInt("address")}), dec)
+            # both at once contradict each other: refused (the frame of a
+            # broadcast has no room for the address, which would be lost)
+            yield ("!broadcast+address", lambda I, st: construct(
+                I, st, c, [], {"broadcast": True,
+                               "address": IvInt("address")}), dec)
         elif fam == "_ShortAddrSpecialCommand":
             yield ("address", lambda I, st: construct(
                 I, st, c, [IvInt("address")], {}), dec)
